@@ -1054,110 +1054,9 @@ def gen_columns(repo, report):
     return COLUMNS_GEN
 
 
-COLUMNS_GEN = '''(* GENERATED by tools/translate.py (layers/columns.py: CachedColumn). Do not edit. *)
-From Connectome Require Import Values MiscGen ColStore.
+# the Gallina text of the recognised body (emitted only when every pattern above matched)
+COLUMNS_GEN = open(os.path.join(os.path.dirname(os.path.abspath(__file__)), 'templates', 'ColumnsGen.v')).read()
 
-(* CachedColumn.compute_hash / _hash_graph: the hash of the column is the hash of the entry it caches (input 0) *)
-Definition column_hash_is_parent : nat := 0.
-(* CacheColumns._prepare_container: one compiled graph per cached name, all columns over the layer's two stores *)
-Definition columns_share_stores : bool := true.
-Definition column_inputs : list string := ["entry"; "key"; "keys"].
-
-Section ColumnEvaluate.
-Variables req deq : nhash -> nhash -> bool.          (* NodeHash.__eq__ (dict keys of the RAM table); equal digests *)
-Variable keq : val -> val -> bool.                    (* == on keys *)
-Variable sorted : list val -> list val.               (* sorted(keys) *)
-Variable get_hash : nat -> val -> option nhash.       (* self.graph.get_hash(k) of column col; None: a user function raised *)
-Variable get_value : nat -> val -> option val.        (* self.graph.get_value of the scratch state kept from get_hash *)
-
-Fixpoint index_of (key : val) (l : list val) : option nat :=
-  match l with [] => None | k :: t => if keq k key then Some 0 else option_map S (index_of key t) end.
-
-(* _get_shard; the closing `assert key in keys` is C08_shard_contains *)
-Definition get_shard (size : option nat) (key : val) (keys : list val) : exn + (list val * nat * nat) :=
-  let keys := sorted keys in
-  match index_of key keys with
-  | None => inl (EValue "The key is not present among the keys cached by this layer")
-  | Some pos =>
-      match size with
-      | None => inr (keys, 1, 0)
-      | Some size =>
-          if Nat.eqb size 0 then inl (EInternal "assert size > 0")
-          else let idx := shard_idx pos size in
-               inr (shard_keys keys size idx, shard_count (List.length keys) size, idx)
-      end
-  end.
-
-(* for k in keys: h, state = self.graph.get_hash(k); ...; if k == key: assert output == h *)
-Fixpoint hash_loop (col : nat) (output : nhash) (key : val) (ks : list val) : (exn + list nhash) * list cevent :=
-  match ks with
-  | [] => (inr [], [])
-  | k :: t =>
-      match get_hash col k with
-      | None => (inl (EUser "get_hash"), [CHash col k])
-      | Some h =>
-          if keq k key && negb (req output h) then (inl (EInternal "assert output == h"), [CHash col k])
-          else let (r, ev) := hash_loop col output key t in
-               (match r with inl e => inl e | inr hs => inr (h :: hs) end, CHash col k :: ev)
-      end
-  end.
-
-(* tuple([self.graph.get_value of the scratch state kept from get_hash for state in states]) *)
-Fixpoint value_loop (col : nat) (ks : list val) : (exn + list val) * list cevent :=
-  match ks with
-  | [] => (inr [], [])
-  | k :: t =>
-      match get_value col k with
-      | None => (inl (EUser "get_value"), [CValue col k])
-      | Some v => let (r, ev) := value_loop col t in
-                  (match r with inl e => inl e | inr vs => inr (v :: vs) end, CValue col k :: ev)
-      end
-  end.
-
-(* for k, h, value in zip(keys, hashes, values): self.ram.raw_set(h, value); if k == key: result = value *)
-Fixpoint ram_fill (st : colstore) (hs : list nhash) (vals : list val) : colstore :=
-  match hs, vals with h :: hs', v :: vs' => ram_fill (ram_set st h v) hs' vs' | _, _ => st end.
-Fixpoint pick (key : val) (ks : list val) (vals : list val) (acc : option val) : option val :=
-  match ks, vals with
-  | k :: ks', v :: vs' => pick key ks' vs' (if keq k key then Some v else acc)
-  | _, _ => acc
-  end.
-
-Definition finish (st : colstore) (key : val) (ks : list val) (hs : list nhash) (vals : list val) (ev : list cevent)
-  : cres * colstore * list cevent :=
-  let st' := ram_fill st hs vals in
-  match pick key ks vals None with
-  | Some r => (COk r, st', ev)
-  | None => (CErr (EInternal "result is not bound"), st', ev)
-  end.
-
-Definition column_evaluate (col : nat) (size : option nat) (output : nhash) (key : val) (keys : list val) (st : colstore)
-  : cres * colstore * list cevent :=
-  match ram_get req st output with
-  | Some v => (COk v, st, [])
-  | None =>
-      match get_shard size key keys with
-      | inl e => (CErr e, st, [CKeyReq; CKeysReq])
-      | inr (ks, _, _) =>
-          match hash_loop col output key ks with
-          | (inl e, ev) => (CErr e, st, CKeyReq :: CKeysReq :: ev)
-          | (inr hs, ev) =>
-              let compound := HApply "builtins.tuple" hs [] in
-              match disk_get deq st compound with
-              | Some (VTuple vals) => finish st key ks hs vals (CKeyReq :: CKeysReq :: ev)
-              | Some _ => (CErr (EInternal "the stored shard is not a tuple"), st, CKeyReq :: CKeysReq :: ev)
-              | None =>
-                  match value_loop col ks with
-                  | (inl e, ev2) => (CErr e, st, CKeyReq :: CKeysReq :: ev ++ ev2)
-                  | (inr vals, ev2) =>
-                      finish (disk_set st compound (VTuple vals)) key ks hs vals (CKeyReq :: CKeysReq :: ev ++ ev2)
-                  end
-              end
-          end
-      end
-  end.
-End ColumnEvaluate.
-'''
 
 
 def write_if_changed(path, text):
